@@ -121,14 +121,24 @@ func vfE4Identify(r *vfRand, body []byte, noneg bool, hist map[string]int) []byt
 }
 
 // a well-formed but hostile peer: identifies properly (possibly claiming the bystander's node
-// address), then works on the bystander's topics and channels, then misbehaves or just leaves.
-func vfE4GenTargeted(r *vfRand, hist map[string]int) ([]byte, []string) {
+// address) with EXTRA members in the IDENTIFY document that name the bystander's connection
+// (remote_address / id / … = the bystander's ip:port), then works on the bystander's topics and
+// channels, then misbehaves or just leaves. Emitted as a structured op
+//   spoof <id> <victim conn id> <extra keys, comma separated | -> <bc> <ho> <ve> <tcp> <http> <hex of what follows the body>
+// (the victim's address is only known at run time; the driver uses a one-byte placeholder body).
+func vfE4GenSpoof(r *vfRand, hist map[string]int, now int64, id, victim int) string {
+	keys := []string{"remote_address", "id", "RemoteAddress", "REMOTE_ADDRESS", "Id", "peerInfo", "peer_info", "lastUpdate", "tombstoned"}
+	var ks []string
+	for n := r.Intn(4); n > 0; n-- {
+		k := keys[r.Intn(len(keys))]
+		ks = append(ks, k)
+		hist["extra:"+k]++
+	}
+	extra := "-"
+	if len(ks) > 0 {
+		extra = strings.Join(ks, ",")
+	}
 	var buf bytes.Buffer
-	buf.WriteString("  V1")
-	body := vfE4IdentifyBody([]byte(vfE4Pick(r, []string{"hA", "hX"})), []byte("nX"), []byte("v9"), 4150, 4151)
-	buf.WriteString("IDENTIFY\n")
-	binary.Write(&buf, binary.BigEndian, int32(len(body)))
-	buf.Write(body)
 	names := [][2]string{{"t", "c"}, {"e#ephemeral", "d#ephemeral"}, {"t", ""}, {"e#ephemeral", ""}, {"t", "d#ephemeral"}, {"x1", ""},
 		{"t", "bad!"}, {"x1", strings.Repeat("n", 65)}, {"bad!", ""}, {"t", "#ephemeral"}}
 	n := 1 + r.Intn(4)
@@ -152,16 +162,14 @@ func vfE4GenTargeted(r *vfRand, hist map[string]int) ([]byte, []string) {
 	case 2:
 		buf.WriteString("UNREGISTER t c")
 	}
-	hist["stream:targeted"]++
-	return buf.Bytes(), []string{vfE4Decode(body)}
+	hist["stream:spoof"]++
+	return fmt.Sprintf("%d spoof %d %d %s %s %s %s 4150 4151 %s", now, id, victim, extra,
+		vfE4H(vfE4Pick(r, []string{"hA", "hX"})), vfE4H("nX"), vfE4H("v9"), vfHex(buf.Bytes()))
 }
 
 func vfE4GenStream(r *vfRand, noneg bool, hist map[string]int) ([]byte, []string) {
 	var buf bytes.Buffer
 	var dec []string
-	if r.Intn(5) == 0 {
-		return vfE4GenTargeted(r, hist)
-	}
 	switch r.Intn(12) {
 	case 0:
 		buf.Write([]byte(vfE4Pick(r, []string{"  V2", "V1  ", "\x00\x00\x00\x00", " V1\n", "GET ", "  v1"})))
@@ -284,6 +292,7 @@ func TestVerifE4Hostile(t *testing.T) {
 		variant = "fixed"
 	}
 	env := vfE4Start(false, []string{"t", "e#ephemeral", "x1", "zz"})
+	env.plainID = true // the bystander is well-behaved: the attack comes from the spoof / stream ops
 	defer env.Stop()
 	out := vfOpen(fmt.Sprintf("hostile_%d", shard))
 	defer out.Close()
@@ -298,11 +307,16 @@ func TestVerifE4Hostile(t *testing.T) {
 			by = id
 			id++
 		}
-		data, _ := vfE4GenStream(r, noneg, hist)
-		dec := vfE4DecodeTable(data)
-		line := fmt.Sprintf("%d stream %d %s", env.vnow, id, vfHex(data))
-		if len(dec) > 0 {
-			line += " " + strings.Join(dec, " ")
+		var line string
+		if r.Intn(4) == 0 {
+			line = vfE4GenSpoof(r, hist, env.vnow, id, by)
+		} else {
+			data, _ := vfE4GenStream(r, noneg, hist)
+			dec := vfE4DecodeTable(data)
+			line = fmt.Sprintf("%d stream %d %s", env.vnow, id, vfHex(data))
+			if len(dec) > 0 {
+				line += " " + strings.Join(dec, " ")
+			}
 		}
 		id++
 		if len(line) < 4000 {
